@@ -140,6 +140,29 @@ class Module:
                         self.imports.get(v.func.id) == ("ext", "functools.partial") and v.args and \
                         isinstance(v.args[0], ast.Name):
                     self.partials[name] = (v.args[0].id, {k.arg: k.value for k in v.keywords if k.arg})
+                elif isinstance(v, ast.Call) and isinstance(v.func, ast.Name) and v.func.id in self.functions and not self.functions[v.func.id].cls:
+                    # NAME = factory(a, b) with `def factory(p, q): return partial(TARGET, kw=p, ...)`: the partial it returns
+                    fnode = self.functions[v.func.id].node
+                    body = [b for b in fnode.body if not (isinstance(b, ast.Expr) and isinstance(b.value, ast.Constant))]
+                    if len(body) == 1 and isinstance(body[0], ast.Return) and isinstance(body[0].value, ast.Call):
+                        pc = body[0].value
+                        if isinstance(pc.func, ast.Name) and self.imports.get(pc.func.id) == ("ext", "functools.partial") and pc.args and \
+                                isinstance(pc.args[0], ast.Name) and not any(isinstance(a, ast.Starred) for a in v.args):
+                            params = [a.arg for a in fnode.args.args]
+                            given = dict(zip(params, v.args))
+                            given.update({k.arg: k.value for k in v.keywords if k.arg})
+                            bound = {}
+                            okb = True
+                            for k in pc.keywords:
+                                if k.arg is None:
+                                    okb = False
+                                elif isinstance(k.value, ast.Name) and k.value.id in params:
+                                    if k.value.id in given:
+                                        bound[k.arg] = given[k.value.id]
+                                else:
+                                    bound[k.arg] = k.value
+                            if okb:
+                                self.partials[name] = (pc.args[0].id, bound)
 
     def function(self, qualname):
         if qualname not in self.functions:
